@@ -523,6 +523,156 @@ func mintRef(pre *cs.FullState, cfg lib.Config, height uint64) map[uint64]*big.I
 	return out
 }
 
+// stakeLedger replays, per validator address, every operation of the block that may change a stake, in block order:
+//
+//	begin_block: slashes (own certificate) .......... slash events referenced "begin_block"
+//	transaction i: stake (new record, amount of the message; requires that no record exists), edit-stake (adds
+//	               max(0, message amount - current stake); requires a record that is not unstaking), certificate-results
+//	               (slashes, events referenced by the transaction hash)
+//	end_block: rewards compounded into the stake (reward events for the address when the record compounds and was not
+//	           unstaking at that moment), then finish-unstaking (the whole remaining stake is paid out)
+//
+// and compares the result with the post-block record. A remainder that is missing is a slash burn that carried no
+// event; it is only accepted where the code can produce it: the record was forced to unstake in this block (it was not
+// unstaking before and is unstaking or gone now) - an unstaking record accepts no edit and no compounding, so its stake
+// is exact before the event-less slash. Anything else (stake lost elsewhere, stake gained from nowhere) is a violation.
+// Returns the sum of the event-less slash burns.
+func stakeLedger(pre, post *cs.FullState, out *cs.Outcome) (*big.Int, error) {
+	type evs struct{ slash, reward, finish, autoUnstake map[string][]uint64 } // per stage reference -> address -> amounts
+	byRef := map[string]*evs{}
+	get := func(ref string) *evs {
+		if byRef[ref] == nil {
+			byRef[ref] = &evs{map[string][]uint64{}, map[string][]uint64{}, map[string][]uint64{}, map[string][]uint64{}}
+		}
+		return byRef[ref]
+	}
+	for _, e := range out.Results.Events {
+		x, a := get(e.Reference), string(e.Address)
+		switch m := e.Msg.(type) {
+		case *lib.Event_Slash:
+			x.slash[a] = append(x.slash[a], m.Slash.Amount)
+		case *lib.Event_Reward:
+			x.reward[a] = append(x.reward[a], m.Reward.Amount)
+		case *lib.Event_FinishUnstaking:
+			x.finish[a] = append(x.finish[a], 0)
+		case *lib.Event_AutoBeginUnstaking:
+			x.autoUnstake[a] = append(x.autoUnstake[a], 0)
+		}
+	}
+	type stakeOp struct {
+		ref    string // tx hash
+		addr   string
+		stake  bool // stake (new record) or edit-stake
+		amount uint64
+	}
+	var ops []stakeOp
+	var refs []string
+	for _, r := range out.Results.Results {
+		refs = append(refs, r.TxHash)
+		m, e := lib.FromAny(r.Transaction.Msg)
+		if e != nil {
+			return nil, fmt.Errorf("included tx with undecodable message: %v", e)
+		}
+		switch x := m.(type) {
+		case *fsm.MessageStake:
+			pk, e := crypto.NewPublicKeyFromBytes(x.PublicKey)
+			if e != nil {
+				return nil, fmt.Errorf("included stake with bad key: %v", e)
+			}
+			ops = append(ops, stakeOp{ref: r.TxHash, addr: string(pk.Address().Bytes()), stake: true, amount: x.Amount})
+		case *fsm.MessageEditStake:
+			ops = append(ops, stakeOp{ref: r.TxHash, addr: string(x.Address), amount: x.Amount})
+		}
+	}
+	addrs := map[string]bool{}
+	for a := range pre.Validators {
+		addrs[a] = true
+	}
+	for a := range post.Validators {
+		addrs[a] = true
+	}
+	for _, o := range ops {
+		addrs[o.addr] = true
+	}
+	sorted := make([]string, 0, len(addrs))
+	for a := range addrs {
+		sorted = append(sorted, a)
+	}
+	sort.Strings(sorted)
+	silentSum := new(big.Int)
+	for _, a := range sorted {
+		cur, silent := new(big.Int), new(big.Int)
+		exists, wasUnstaking := false, false
+		if v := pre.Validators[a]; v != nil {
+			cur.SetUint64(v.StakedAmount)
+			exists, wasUnstaking = true, v.UnstakingHeight != 0
+		}
+		applySlashes := func(ref string) {
+			if x := byRef[ref]; x != nil {
+				for _, amt := range x.slash[a] {
+					cur.Sub(cur, cs.Big(amt))
+				}
+			}
+		}
+		applySlashes(lib.EventStageBeginBlock)
+		for _, ref := range refs {
+			for _, o := range ops {
+				if o.ref != ref || o.addr != a {
+					continue
+				}
+				if o.stake {
+					// the previous record (if any) must be gone: whatever the events did not explain was slashed without event
+					if exists {
+						silent.Add(silent, cur)
+					}
+					cur.SetUint64(o.amount)
+					exists, wasUnstaking = true, false
+				} else if cs.Big(o.amount).Cmp(cur) > 0 {
+					cur.SetUint64(o.amount) // edit-stake tops the stake up to the message amount
+				}
+			}
+			applySlashes(ref) // certificate-results transactions
+		}
+		if cur.Sign() < 0 {
+			return nil, fmt.Errorf("validator %x: slash events of the block exceed its stake (ledger %s)", a, cur)
+		}
+		v1 := post.Validators[a]
+		end := byRef[lib.EventStageEndBlock]
+		if end != nil && len(end.reward[a]) > 0 && exists {
+			// compounding needs the record's Compound flag and "not unstaking" at distribution time; both are those of
+			// the post-block record, except that the max-pause force-unstake runs after the distribution
+			if v1 != nil && v1.Compound && (v1.UnstakingHeight == 0 || len(end.autoUnstake[a]) > 0) {
+				for _, amt := range end.reward[a] {
+					cur.Add(cur, cs.Big(amt))
+				}
+			}
+		}
+		finished := end != nil && len(end.finish[a]) > 0
+		switch {
+		case v1 != nil:
+			d := new(big.Int).Sub(cur, cs.Big(v1.StakedAmount))
+			if d.Sign() < 0 {
+				return nil, fmt.Errorf("validator %x: stake %d after the block, but stakes/edits/rewards/slashes of the block explain only %s", a, v1.StakedAmount, cur)
+			}
+			if d.Sign() > 0 {
+				if wasUnstaking || v1.UnstakingHeight == 0 {
+					return nil, fmt.Errorf("validator %x: stake %d after the block, ledger says %s: %s tokens left the stake without slash event and without a forced unstake", a, v1.StakedAmount, cur, d)
+				}
+				silent.Add(silent, d)
+			}
+		case finished: // paid out in full; a record that finishes was unstaking before the block, so every slash had its event
+		case exists:
+			// deleted by a slash to zero: the remainder the events do not explain went in an event-less slash before it
+			if cur.Sign() > 0 && wasUnstaking {
+				return nil, fmt.Errorf("validator %x: record deleted, ledger still holds %s and it was already unstaking (every slash has an event then)", a, cur)
+			}
+			silent.Add(silent, cur)
+		}
+		silentSum.Add(silentSum, silent)
+	}
+	return silentSum, nil
+}
+
 // delta checks the block-to-block change of the total: scheduled mint + approved DAO mints + faucet top-ups - slash
 // burns - undistributed reward remainder; everything else only moves tokens.
 func delta(pre, post *snapshot, cfg lib.Config, height uint64, out *cs.Outcome, faucet []byte) (string, error) {
@@ -582,23 +732,13 @@ func delta(pre, post *snapshot, cfg lib.Config, height uint64, out *cs.Outcome, 
 			rewards[e.ChainId].Add(rewards[e.ChainId], cs.Big(m.Reward.Amount))
 		}
 	}
-	// SlashValidator emits no slash event when the slash pushes the stake below the minimum and forces the validator to
-	// unstake (early return before EventSlash). The burn itself is explicit and done; read its size from the records: a
-	// validator that was not unstaking before the block, is unstaking after it and lost stake (nothing else can lower a
-	// stake, and an unstaking record accepts neither edits nor compounding).
-	silent := new(big.Int)
-	for a, v0 := range pre.fs.Validators {
-		v1 := post.fs.Validators[a]
-		if v1 == nil || v0.UnstakingHeight != 0 || v1.UnstakingHeight == 0 || v1.StakedAmount >= v0.StakedAmount {
-			continue
-		}
-		d := new(big.Int).Sub(cs.Big(v0.StakedAmount), cs.Big(v1.StakedAmount))
-		if e := evented[a]; e != nil {
-			d.Sub(d, e)
-		}
-		if d.Sign() > 0 {
-			silent.Add(silent, d)
-		}
+	// Slash burns are derived from the RECORDS: per validator, the stake before the block is walked through everything
+	// that may change a stake in this block (see stakeLedger); what is missing at the end was burned by a slash.
+	// Slash events are only used to position burns inside the block (an event-less slash exists: SlashValidator returns
+	// before EventSlash when the slash forces the validator to unstake).
+	silent, err := stakeLedger(pre.fs, post.fs, out)
+	if err != nil {
+		return "", err
 	}
 	slash.Add(slash, silent)
 	// reward pools (pool id = committee id): before distribution = previous + mint + fees (own chain) + subsidies
@@ -672,8 +812,18 @@ func delta(pre, post *snapshot, cfg lib.Config, height uint64, out *cs.Outcome, 
 	want.Add(want, faucetTop).Sub(want, slash).Sub(want, burn)
 	got := new(big.Int).Sub(cs.Big(post.fs.Supply.Total), cs.Big(pre.fs.Supply.Total))
 	if got.Cmp(want) != 0 {
-		return "", fmt.Errorf("ΔSupply.Total=%s but scheduled mint %s + DAO mints %s + faucet %s - slashes %s - reward remainder %s = %s",
-			got, mintSum, daoMint, faucetTop, slash, burn, want)
+		var dbg []string
+		for a, v0 := range pre.fs.Validators {
+			v1 := post.fs.Validators[a]
+			if v1 == nil {
+				dbg = append(dbg, fmt.Sprintf("%x: %d(u%d p%d)->deleted evented=%v", a[:3], v0.StakedAmount, v0.UnstakingHeight, v0.MaxPausedHeight, evented[a]))
+			} else if v1.StakedAmount != v0.StakedAmount || evented[a] != nil {
+				dbg = append(dbg, fmt.Sprintf("%x: %d(u%d p%d)->%d(u%d p%d) evented=%v", a[:3], v0.StakedAmount, v0.UnstakingHeight, v0.MaxPausedHeight, v1.StakedAmount, v1.UnstakingHeight, v1.MaxPausedHeight, evented[a]))
+			}
+		}
+		sort.Strings(dbg)
+		return "", fmt.Errorf("ΔSupply.Total=%s but scheduled mint %s + DAO mints %s + faucet %s - slashes %s - reward remainder %s = %s\nstake changes: %s",
+			got, mintSum, daoMint, faucetTop, slash, burn, want, strings.Join(dbg, "; "))
 	}
 	if tot := new(big.Int).Add(cs.Big(pre.fs.Supply.Total), want); tot.Cmp(maxU) > 0 {
 		return "", fmt.Errorf("the block's mints push the total above 2^64-1 (%s)", tot)
